@@ -34,7 +34,8 @@ their `insert`, `insertIfNotPresent`, `mergeStep` with the size-based swaps) and
 * `sccLoop` / `runScc` / `run` — `compile_mir_scc`, l.609-644.
 
 `Props/C01Phys.lean` proves that this engine computes the least model (by a forward simulation onto the
-nondeterministic engine of `Proofs/NDEngine.lean`).  Serial, non-lattice, aggregation-free programs; no deadline.
+nondeterministic engine of `Proofs/NDEngine.lean`).  Serial, non-lattice programs; aggregation / negation items read the index the plan chose
+for them (`Props/C04Phys.lean`); no deadline.
 Core Lean only; executable (driver op `engp`).
 -/
 namespace AscentVerif.Phys
@@ -211,6 +212,25 @@ def joinStep (I : Interp E B G P A) (allA : List (List Val × List Tuple)) (cols
               | none => []
               | some ρ₄ => k ρ₄
 
+/-- the index columns the plan chose for the aggregated relation at position `i` (`agg.rel.indices`: the positions of the
+arguments that are neither `_` nor one of the aggregated variables) -/
+def aggColsAt (h : Hir.HRule) (i : Nat) : List Nat :=
+  match h.items[i]? with
+  | some (.agg _ cols) => cols
+  | _ => []
+
+/-- `selected_args`: the key of the aggregation's `index_get`, the `key` arguments evaluated in column order -/
+def aggKey (I : Interp E B G P A) (ρ : Env) (args : List (AggArg E)) : List Val :=
+  args.filterMap fun
+    | .key e => some (I.expr e ρ)
+    | _ => none
+
+/-- `__aggregated_rel.index_get(&key).into_iter().flatten()`: the rows the aggregation ranges over, read through the index the
+plan chose, from the `total` version of the aggregated relation (the struct field for a relation of an earlier stratum) -/
+def aggRows (I : Interp E B G P A) (p : Program E B G P A) (s : PScc) (h : Hir.HRule) (i : Nat) (a : AggClause E A) (ρ : Env) :
+    List Tuple :=
+  getV (arityOf p a.rel) (viewOf s a.rel (some .total)) (aggColsAt h i) (aggKey I ρ a.args)
+
 /-- the body from position `i` on, as the generated code evaluates it over the physical indices -/
 def evalFrom (I : Interp E B G P A) (p : Program E B G P A) (s : PScc) (h : Hir.HRule) (swap : Bool) :
     Nat → List (Item E B G P A) → List (Option Ver) → Env → List Env
@@ -241,7 +261,9 @@ def evalFrom (I : Interp E B G P A) (p : Program E B G P A) (s : PScc) (h : Hir.
     | some ρ₁ => evalFrom I p s h swap (i + 1) rest vs.tail ρ₁
   | i, .gen v g :: rest, vs, ρ =>
     (I.gen g ρ).flatMap fun x => evalFrom I p s h swap (i + 1) rest vs.tail ((v, x) :: ρ)
-  | _, .agg _ :: _, _, _ => []     -- aggregation-free fragment
+  | i, .agg a :: rest, vs, ρ =>
+    -- `for pat in agg_func(matching rows mapped to the bound arguments) { rest }`
+    (aggEnvs I a ρ (aggRows I p s h i a ρ)).flatMap fun ρ₁ => evalFrom I p s h swap (i + 1) rest vs.tail ρ₁
 
 /-- the clauses of a body with their position and version: `(i, relation, version)` -/
 def clausesOf : Nat → List (Item E B G P A) → List (Option Ver) → List (Nat × RelId × Option Ver)
@@ -417,5 +439,47 @@ def planOk (V : Hir.VarsOf E B) (p : Program E B G P A) (ix : IxSets) : Bool :=
 /-- a program value the physical engine may be started from: one entry per declared relation, rows of the declared arity -/
 def WFPSt (p : Program E B G P A) (s : PSt) : Prop :=
   s.length = p.rels.length ∧ ∀ r, ∀ t ∈ (prel s r).rows, t.length = arityOf p r
+
+/-! ## aggregation: the index sets and the usable-plan condition (hypotheses of `Props/C04Phys.lean`) -/
+
+/-- the non-full index column sets of relation `r` including those of aggregated clauses on `r` -/
+def ixSetsOfA (V : Hir.VarsOf E B) (p : Program E B G P A) : IxSets := fun r =>
+  let all := p.rules.flatMap fun rule =>
+    (Hir.compileRule V rule).items.filterMap fun
+      | .clause r' cols _ => if r' == r && cols.length != arityOf p r then some cols else none
+      | .agg r' cols => if r' == r && cols.length != arityOf p r then some cols else none
+      | _ => none
+  all.eraseDups
+
+/-- the positions of the `key` arguments -/
+def keyPositions (args : List (AggArg E)) : List Nat :=
+  (List.range args.length).filter fun j =>
+    match args[j]? with
+    | some (.key _) => true
+    | _ => false
+
+/-- the aggregated variables occurring as arguments, in argument order -/
+def boundOcc (args : List (AggArg E)) : List Var :=
+  args.filterMap fun
+    | .bound v => some v
+    | _ => none
+
+/-- the plan of the aggregations of one rule is usable: every `agg` item is compiled to an `agg` item on the same relation whose
+index columns are exactly the positions of the `key` arguments, inside the arity; one argument per column; the index exists;
+no aggregated variable occurs twice among the arguments (the generated code reads it from its first position only) and every
+aggregated variable occurs -/
+def aggRuleOk (V : Hir.VarsOf E B) (p : Program E B G P A) (ix : IxSets) (r : Rule E B G P A) : Bool :=
+  let h := Hir.compileRule V r
+  (List.range r.body.length).all fun i =>
+    match r.body[i]?, h.items[i]? with
+    | some (.agg a), some (.agg rel' cols) =>
+      rel' == a.rel && a.args.length == arityOf p a.rel && cols == keyPositions a.args &&
+        (cols.length == arityOf p a.rel || (ix a.rel).contains cols) &&
+        (boundOcc a.args).Nodup && a.boundArgs.all (boundOcc a.args).contains
+    | some (.agg _), _ => false
+    | _, _ => true
+
+def aggPlanOk (V : Hir.VarsOf E B) (p : Program E B G P A) (ix : IxSets) : Bool :=
+  p.rules.all fun r => aggRuleOk V p ix r
 
 end AscentVerif.Phys
